@@ -259,13 +259,18 @@ Chem(par, fn, a, cb) ==
       T   == JAdd(JConst(PN(par, "T_0")), wav("T_x", "a_Tx", "cos"))
       rho == JAdd(rN, rN2)
       RN  == PN(par, "R_N")  RN2 == PN(par, "R_N2")
-      \* thermally perfect mixture: p = (rho_N R_N + rho_N2 R_N2) T
-      p   == JMul(JAdd(JScale(RN, rN), JScale(RN2, rN2)), T)
-      \* e_N = 3/2 R_N T + h0_N ; e_N2 = 5/2 R_N2 T + e_vib + h0_N2 ; e_vib = R_N2 theta_v / (exp(theta_v/T) - 1)
+      \* The model has the molecule twice as heavy as the atom built in (M_N2 = 2 M_N in the rate below), so the
+      \* gas constant of N2 in the pressure and in the translational-rotational energy is R_N / 2; the PARAMETER
+      \* R_N2 is the coefficient of the vibrational energy (for R_N2 = R_N / 2 the two readings coincide; the
+      \* library's own defaults are R_N = 0.6, R_N2 = 0.4).
+      \* thermally perfect mixture: p = (rho_N R_N + rho_N2 R_N/2) T
+      RM2 == NMul(Half, RN)
+      p   == JMul(JAdd(JScale(RN, rN), JScale(RM2, rN2)), T)
+      \* e_N = 3/2 R_N T + h0_N ; e_N2 = 5/2 (R_N/2) T + e_vib + h0_N2 ; e_vib = R_N2 theta_v / (exp(theta_v/T) - 1)
       th  == PN(par, "theta_v_N2")
       evib == JScale(NMul(RN2, th), JRecip(JSub(JExp(JScale(th, JRecip(T))), JConst(N1))))
       eN  == JAdd(JScale(NMul(NFromRat(3, 2), RN), T), JConst(PN(par, "h0_N")))
-      eN2 == JAdd(JAdd(JScale(NMul(NFromRat(5, 2), RN2), T), evib), JConst(PN(par, "h0_N2")))
+      eN2 == JAdd(JAdd(JScale(NMul(NFromRat(5, 2), RM2), T), evib), JConst(PN(par, "h0_N2")))
       rE  == JAdd(JAdd(JMul(rN, eN), JMul(rN2, eN2)), JScale(Half, JMul(rho, JSq(u))))
       \* dissociation N2 + M <-> 2N + M, M in {N, N2}; forward rates Arrhenius, backward via K_eq(T)
       Tn  == JV(T)
